@@ -8,6 +8,8 @@ result goes with which change of `acked` / `ackedBC` / `delivered`. The facts ab
 hypotheses (`SendBodies`, `TryBodies`, `NextBodies`) that the property theorems of `Props/C10.lean`
 discharge by `decide`: a changed `return` statement breaks those theorems.
 -/
+set_option linter.unusedSimpArgs false
+set_option linter.unusedVariables false
 namespace Juniper.Proofs.Pipe
 open Juniper.Facts Juniper.Gen.Pipe Juniper.Model.Pipe
 
